@@ -39,7 +39,7 @@ DEFAULT_CFG = dict(
     even_on_consumers=0.25,  # chance that a case may put c2/c0 on load/storage/dcline entries (the F8 shape)
     fixed_cost=0.08,         # chance per non-dispatchable (non-controllable / out of service) element of a cost entry
     tight_branch=0.45, bus_limits=True, gen_index_gap=0.1,
-    oos_el=0.025, oos_bus=0.012, open_switch=0.08,
+    oos_el=0.015, oos_bus=0.008, open_switch=0.08,
     dcline_lossless=0.6,     # share of dclines without losses (the OPF loss model deviates from the documented one)
     dead_terminal=0.1,       # share of cases that keep an in-service ext_grid/dcline at an out-of-service bus
 )
@@ -226,6 +226,7 @@ def opf_costs(draw, recipe, cfg, ac):
     even_cons = _chance(draw, cfg["even_on_consumers"])
     costs = []
     count = {}
+    seen_slack = False
     for e in el:
         t = e["t"]
         if t not in COST_ETS:
@@ -233,7 +234,11 @@ def opf_costs(draw, recipe, cfg, ac):
         k = count.get(t, 0)
         count[t] = k + 1
         disp = _dispatchable(e)
-        if not _chance(draw, cfg["cost_prob"] if disp else cfg["fixed_cost"]):
+        is_first_slack = (t == "ext_grid" or (t == "gen" and e.get("slack"))) and not seen_slack
+        seen_slack = seen_slack or is_first_slack
+        is_slack = t == "ext_grid" or (t == "gen" and e.get("slack"))   # reactive power of a slack is practically unbounded
+        # the first slack nearly always carries a cost: otherwise balancing energy is free and most problems are degenerate
+        if not _chance(draw, 0.9 if is_first_slack else (cfg["cost_prob"] if disp else cfg["fixed_cost"])):
             continue
         S = _level_s(recipe, e["bus"] if "bus" in e else e["from_bus"])
         consumer = t in ("load", "storage", "dcline")
@@ -258,7 +263,7 @@ def opf_costs(draw, recipe, cfg, ac):
                 slopes.append(_r(slopes[-1] + abs(base) * draw(q(0.1, 1.0, nd=1)) + 0.1))
             costs.append({"kind": "pwl", "et": t, "k": k, "power_type": "p",
                           "points": [[xs[j], xs[j + 1], slopes[j]] for j in range(nseg)]})
-            if qcost and t != "dcline" and draw(st.integers(0, 2)) == 0:
+            if qcost and t != "dcline" and not is_slack and draw(st.integers(0, 2)) == 0:
                 ql, qh = e.get("min_q_mvar", -S), e.get("max_q_mvar", S)
                 if abs(ql) > 1e5 or abs(qh) > 1e5:
                     ql, qh = -S, S
@@ -273,7 +278,7 @@ def opf_costs(draw, recipe, cfg, ac):
             c["cp2_eur_per_mw2"] = _r(abs(base if base else 1.0) / S * draw(q(0.1, 3.0, nd=1)))
         if even_ok and _chance(draw, cfg["const"]):
             c["cp0_eur"] = draw(q(-50.0, 50.0, nd=1))
-        if qcost and t != "dcline" and draw(st.integers(0, 1)):
+        if qcost and t != "dcline" and not is_slack and draw(st.integers(0, 1)):
             c["cq1_eur_per_mvar"] = draw(q(-5.0, 5.0, nd=1))
             if quad and even_ok and draw(st.integers(0, 1)):
                 c["cq2_eur_per_mvar2"] = _r(5.0 / S * draw(q(0.1, 2.0, nd=1)))
